@@ -578,6 +578,23 @@ func genCaseFor(p Profile) func(t *rapid.T) Case {
 					case 5: // this forwarder's format, never issued
 						op.TokKind = "bogus"
 						op.Tok = hex.EncodeToString([]byte{0, 0, 0xfe, byte(r.D), byte(r.G), byte(r.A)})
+					case 6:
+						// full stack only (the link service reads the thread field): the token of a
+						// forwarded Interest with its thread field mangled, on Data of a name nobody asked for
+						if p.Full {
+							var refs []int
+							for _, ii := range interestOps {
+								if h, ok := m.tokOp[ii]; ok && !m.ambTok[h] {
+									if _, live := m.tok[h]; live {
+										refs = append(refs, ii)
+									}
+								}
+							}
+							if len(refs) > 0 {
+								op.TokKind, op.TokRef = "mangled", refs[r.D%len(refs)]
+								op.N = fmt.Sprintf("/zz/m%d", r.G%7)
+							}
+						}
 					}
 				}
 				tok, ok := m.ResolveToken(op)
